@@ -76,6 +76,12 @@ def option_cases(tier):
         for ok in OPTION_KINDS[:2]:
             st = ("st", (("f0", 0, U(8)), ("f0_1", 1, I(16)), ("temp", 2, U(8)), ("temp_1", 3, U(8)), ("temp_raw", 5, I(8)), ("temp_12", 4, ("st", (("temp_3", 0, U(4)), ("f0_0", 1, U(4)))))))
             out.append((st, ((blk, ok),)))
+    # an array next to a field that is named like one of its elements
+    pair = St(("x", 0, U(8)))
+    out.append((("st", (("a", 0, Arr(U(8), 2)), ("a_0", 1, U(16)))), ()))
+    out.append((("st", (("p", 0, Arr(pair, 1)), ("p_0", 1, pair))), ()))
+    out.append((("st", (("a", 0, Arr(Arr(U(1), 2), 2)), ("a_1", 1, Arr(U(1), 1)))), ()))
+    out.append((("st", (("a", 0, Arr(U(8), 2)), ("a_0", 1, U(16)))), (("a", OPTION_KINDS[0]),)))
     return out
 
 
@@ -91,19 +97,15 @@ def observe(encoding):
 
 
 def expected_layout(env, sname, unroll, options):
-    """Per leaf: geometry + the options of the signal block named exactly like the leaf's last
-    name component.  A leaf unrolled from array field `arr` is not judged against a block named
-    `arr` (the statement is silent on that): its option columns are None."""
+    """Per leaf: geometry + the options of the signal block named like the DECLARED field the leaf
+    belongs to.  The elements of an unrolled array field `arr` carry the options declared for `arr`;
+    a block named like an element (`arr_0`) belongs to a field of that name, if any, never to the element."""
     opts = dict(options)
     out = []
     for leaf in reflayout.layout(env, sname, unroll):
-        last = leaf.name.split("::")[-1]
-        o = dict(opts.get(last, ()))
+        o = dict(opts.get(leaf.field, ()))
         geo = (leaf.name, leaf.start, leaf.width, leaf_kind(leaf.type))
-        if last != leaf.field and leaf.field in opts:
-            out.append(geo + (None, None))
-        else:
-            out.append(geo + (o.get("endianess", "little"), tuple(sorted((k, str(x)) for k, x in o.items()))))
+        out.append(geo + (o.get("endianess", "little"), tuple(sorted((k, str(x)) for k, x in o.items()))))
     return out
 
 
@@ -189,7 +191,10 @@ def make_worker(tier):
                     continue
                 S.add("outcomes", tuple((g[1], g[2]) for g in got))
                 errs = invariants(got)
-                if errs:
+                if errs and all(e.startswith("duplicate name") for e in errs) and [g[0] for g in got] == [e[0] for e in exp]:
+                    # the names are the documented ones (<array>_<i>), and still not unique
+                    S.violation("C04.names", "C04.names/duplicate-leaf-name/unrolled-element-named-like-a-sibling-field", inp, expected="unique hierarchical names", actual={"errors": errs, "layout": got})
+                elif errs:
                     S.violation("C04.tiling", "C04.tiling/%s/unroll=%s" % (shape_class(st), unroll), inp, expected="tiling from bit 0, unique names", actual={"errors": errs, "layout": got})
                 geo_exp = [e[:4] for e in exp]
                 geo_got = [g[:4] for g in got]
@@ -311,7 +316,7 @@ def run(tier):
         "subset (<=2) of field names; plus every generate() history up to the bound on one live encoder (fork-snapshot) compared with a fresh encoder. "
         "non-trivial = layout with >= 2 leaves, or any history."
     )
-    r.assumptions = ["reference layout fcpmc/reflayout.py", "option on an array field: only exact leaf-name matches are judged"]
+    r.assumptions = ["reference layout fcpmc/reflayout.py", "an unrolled array element belongs to the array field it was unrolled from"]
     return r.finish()
 
 
